@@ -26,8 +26,12 @@ common.use_repo_sources()
 RULE = ("(n, n_chunks) grids: exhaustive for small n, boundary + random chunk counts for larger n; "
         "assemblies: real calculate/save/load/concat/to_dense with a stub metric encoding (i,j), chunk files "
         "shuffled with repeats, one non-empty chunk dropped for the refusal; hand-built matrices with repeated/missing pairs; "
-        "real CLI main() per chunk on a real Screen + SparseDrugComboMCMCSample holder files, assembled in shuffled order with repeats; "
-        "MSEDistance on random vectors. Non-trivial: n>=3 and 2<=n_chunks (partition) / at least 2 non-empty chunks (assembly, CLI).")
+        "a few larger matrices (n 12-30, chunks starting mid-row) and one single-chunk matrix with n=300 (indices > 255 through save/load); "
+        "repeated chunk indices are loaded either as separate objects or as ONE shared object; "
+        "real CLI main() per chunk on a real (partly unobserved) Screen + SparseDrugComboMCMCSample holder files -- some samples identical so that "
+        "real distances are exactly 0.0 -- assembled in shuffled order with repeats; "
+        "MSEDistance on random and structured vectors (equal, equal first entry, one differing entry, integers; contiguous, strided and read-only "
+        "arrays; arguments must stay unchanged). Non-trivial: n>=3 and 2<=n_chunks (partition) / at least 2 non-empty chunks (assembly, CLI).")
 
 
 def stub_metric(z, i, j):
@@ -201,7 +205,11 @@ def case_assembly(dc, case, res, tmp, tie=None, tie_calc=False):
         files[c] = fn
         if tie is not None and tie_calc:
             tie.add("calc %d %d %d %d" % (n, c, k, z), show_cdm(m), ("calc", n, c, k, z))
-    loaded = [dc.ChunkedDistanceMatrix.load(files[c]) for c in order]
+    if case.get("share"):          # the SAME loaded object for every repetition of a chunk index (object reuse inside concat)
+        objs = {c: dc.ChunkedDistanceMatrix.load(files[c]) for c in set(order)}
+        loaded = [objs[c] for c in order]
+    else:
+        loaded = [dc.ChunkedDistanceMatrix.load(files[c]) for c in order]
     nonempty = [c for c in range(k) if dc.ChunkedDistanceMatrix.load(files[c]).current_index > 0]
     try:
         cat = dc.ChunkedDistanceMatrix.concat(loaded)
@@ -318,7 +326,14 @@ def make_cli_inputs(case, tmp):
         tn[r, 0] = drugs[r]
     td = np.where(tn == "control", 0.0, rs.choice([0.5, 1.0, 2.0], size=tn.shape))
     sn = np.array([samples[i % len(samples)] for i in range(rows)], dtype=str)
-    screen = Screen(observations=rs.random(rows), sample_names=sn, plate_names=np.array(["p%d" % (i % 2) for i in range(rows)], dtype=str),
+    obs = rs.random(rows)
+    mask = None
+    if case.get("partial"):
+        # plate p1 is not observed yet (the usual situation when distances are computed): the reference below predicts on
+        # the WHOLE screen, as calculate_pairwise_distance_matrix_on_predictions does
+        mask = np.array([i % 2 == 0 for i in range(rows)], dtype=bool)
+        obs = np.where(mask, obs, 0.0)
+    screen = Screen(observations=obs, observation_mask=mask, sample_names=sn, plate_names=np.array(["p%d" % (i % 2) for i in range(rows)], dtype=str),
                     treatment_names=tn, treatment_doses=td, control_treatment_name="control")
     data_fn = os.path.join(tmp, "data.h5")
     screen.save_h5(data_fn)
@@ -328,6 +343,13 @@ def make_cli_inputs(case, tmp):
         thetas.append(SparseDrugComboMCMCSample(W=rs.normal(size=(ns, D)), W0=rs.normal(size=(ns,)), V2=rs.normal(size=(nt, D)),
                                                 V1=rs.normal(size=(nt, D)), V0=rs.normal(size=(nt,)), alpha=float(rs.normal()),
                                                 precision=float(rs.random() + 0.5)))
+    # identical posterior samples (a chain that did not move): their distance is EXACTLY 0.0 through the real metric
+    if case.get("dup") == "all":
+        thetas = [thetas[0]] * n
+    elif case.get("dup") == "pair" and n >= 2:
+        thetas[n - 1] = thetas[0]
+        if n >= 4:
+            thetas[2] = thetas[1]
     split = case["split"]
     parts = [thetas[:split], thetas[split:]] if 0 < split < n else [thetas]
     theta_fns = []
@@ -335,7 +357,7 @@ def make_cli_inputs(case, tmp):
         h = ThetaHolder(n_thetas=len(part))
         for t in part:
             h.add_theta(t)
-        fn = os.path.join(tmp, "thetas%d.h5" % pi)
+        fn = os.path.join(tmp, "thetas%d.h5" % (len(parts) - 1 - pi))    # given order is NOT the lexicographic order of the names
         h.save_h5(fn)
         theta_fns.append(fn)
     return data_fn, theta_fns
@@ -395,7 +417,11 @@ def case_cli(dc, case, res, tmp, tie=None):
         if tie is not None:
             tie.add("chunk %d %d %d" % (n, c, k), show_pairs(pairs), ("cli-chunk", n, c, k))
     try:
-        cat = dc.ChunkedDistanceMatrix.concat([dc.ChunkedDistanceMatrix.load(outs[c]) for c in order])
+        if case.get("share"):      # the SAME loaded object for every repetition of a chunk index
+            objs = {c: dc.ChunkedDistanceMatrix.load(outs[c]) for c in set(order)}
+            cat = dc.ChunkedDistanceMatrix.concat([objs[c] for c in order])
+        else:
+            cat = dc.ChunkedDistanceMatrix.concat([dc.ChunkedDistanceMatrix.load(outs[c]) for c in order])
         dense = cat.to_dense()
     except Exception as e:
         res.fail("assembly of CLI chunk files raises", case, "%s: %s" % (type(e).__name__, e), "complete matrix")
@@ -423,15 +449,37 @@ def case_metric(case, res, tie=None):
     from scipy.special import expit
     from batchie.distance.mse import MSEDistance
     a, b, sig = np.array(case["a"], dtype=float), np.array(case["b"], dtype=float), case["sigmoid"]
+    layout = case.get("layout")
+    if layout == "strided":        # non-contiguous views of one buffer (a slice of a prediction matrix)
+        base = np.empty(2 * len(a), dtype=float)
+        base[0::2], base[1::2] = a, b
+        a, b = base[0::2], base[1::2]
+    elif layout == "readonly":
+        a.flags.writeable = False
+        b.flags.writeable = False
+    a0, b0 = a.copy(), b.copy()
     m = MSEDistance(sigmoid=sig)
-    dab, dba, daa = m.distance(a, b), m.distance(b, a), m.distance(a, a)
+    try:
+        dab, dba, daa = m.distance(a, b), m.distance(b, a), m.distance(a, a)
+        dac = m.distance(a, a0)        # identical predictions held in two different arrays
+    except Exception as e:  # noqa
+        res.fail("metric raises", case, "%s: %s" % (type(e).__name__, e), "a distance")
+        return
+    if not (np.array_equal(a, a0) and np.array_equal(b, b0)):
+        res.fail("metric changes the prediction arrays it is given", case, {"a_changed": not np.array_equal(a, a0), "b_changed": not np.array_equal(b, b0)},
+                 "arguments unchanged (the same prediction is compared with many others)")
+        a, b = a0.copy(), b0.copy()
+    if dac != 0:
+        res.fail("metric non-zero on identical predictions", case, dac, 0)
     if dab != dba:
         res.fail("metric not symmetric", case, [dab, dba], "equal")
     if not (dab >= 0):
         res.fail("metric negative", case, dab, ">= 0")
     if daa != 0:
         res.fail("metric non-zero on identical predictions", case, daa, 0)
-    ref = float(np.mean(((expit(a) - expit(b)) if sig else (a - b)) ** 2))
+    ref = float(np.mean(((expit(a0) - expit(b0)) if sig else (a0 - b0)) ** 2))
+    if not np.array_equal(a0, b0) and ref > 0 and not (dab > 0):
+        res.fail("metric zero on different predictions", case, dab, ref)
     if abs(ref - dab) > 1e-12 * max(1.0, abs(ref)):
         res.fail("metric differs from mean squared difference", case, dab, ref)
     if tie is not None:
@@ -468,6 +516,10 @@ def gen_assembly(rng):
     n = rng.choice([0, 1, 2, 3, 3, 4, 4, 5, 5, 6, 7, 8, 9])
     N = n * (n - 1) // 2
     k = rng.choice([1, 2, 3, max(1, N - 1), max(1, N), N + 1, N + 2, rng.randint(1, N + 3)])
+    if rng.random() < 0.04:        # a larger matrix cut into a few chunks (chunks start and end in the middle of rows)
+        n = rng.randint(12, 30)
+        N = n * (n - 1) // 2
+        k = rng.choice([2, 3, 4, 5, 7])
     z = rng.choice([0, 0, 2, 3, 7, 1])
     order = list(range(k))
     rng.shuffle(order)
@@ -477,7 +529,8 @@ def gen_assembly(rng):
     # which non-empty chunk to drop for the refusal part (chunk c is non-empty iff c < N when k > N, always when k <= N and N > 0)
     ne = [c for c in range(k) if (N // k) + (1 if c < N % k else 0) > 0]
     drop = rng.choice(ne) if ne else None
-    return {"kind": "assembly", "n": n, "n_chunks": k, "zmod": z, "order": order, "dropped": drop}, bool(reps)
+    return {"kind": "assembly", "n": n, "n_chunks": k, "zmod": z, "order": order, "dropped": drop,
+            "share": bool(reps) and rng.random() < 0.5}, bool(reps)
 
 
 def gen_handbuilt(rng):
@@ -508,7 +561,8 @@ def gen_cli(rng):
     rng.shuffle(order)
     return {"kind": "cli", "seed": rng.randrange(2 ** 31), "n": n, "n_chunks": k, "order": order, "arity": rng.choice([1, 2, 2]),
             "rows": rng.randint(3, 9), "D": rng.choice([1, 2, 3]), "n_drugs": rng.randint(2, 4), "n_samples": rng.randint(1, 3),
-            "split": rng.randint(0, n), "sigmoid": rng.choice([None, None, None, False])}
+            "split": rng.randint(0, n), "sigmoid": rng.choice([None, None, None, False]),
+            "partial": rng.random() < 0.6, "dup": rng.choice([None, None, "pair", "pair", "all"]), "share": rng.random() < 0.3}
 
 
 def run(ctx, res):
@@ -559,6 +613,13 @@ def run(ctx, res):
             res.count("assembly.repeats" if has_reps else "assembly.norepeats")
             if len(res.samples) < 3:
                 res.sample(case)
+        # ---------- B1b. many samples, one chunk: indices above 255 survive save/load (oracle only: the model's
+        #             list-based to_dense is quadratic in the number of pairs) ------------------------------------------
+        for n_big in ctx.scale([300], [300, 520], [300]):
+            case = {"kind": "assembly", "n": n_big, "n_chunks": 1, "zmod": 7, "order": [0], "dropped": None, "big": True}
+            res.evaluations += 1
+            case_assembly(dc, case, res, tmp, None)
+            res.count("assembly.big_single_chunk")
         # ---------- B2. hand-built matrices (repeats / missing pairs) ---------------------
         rng = ctx.subrng("hand")
         for t in range(ctx.scale(100, 800, 400)):
@@ -566,6 +627,35 @@ def run(ctx, res):
             res.evaluations += 1
             res.count("handbuilt." + case["mode"])
             case_handbuilt(dc, case, res, tmp, tie)
+        # ---------- B2b. add_value's refusals and boundary entries (tie only: exercises the model's addValue branches) --------
+        rng = ctx.subrng("build")
+        for t in range(ctx.scale(60, 400)):
+            n = rng.choice([2, 3, 4, 5])
+            es = []
+            for _ in range(rng.randint(1, n * (n - 1) // 2 + 3)):
+                kind = rng.choice(["low"] * 14 + ["diag", "diag", "upper", "row-out", "col-out", "neg-col", "neg-col"])
+                i = rng.randrange(1, n)
+                j = rng.randrange(0, i)
+                if kind == "diag":
+                    j = i
+                elif kind == "upper":
+                    i, j = j, i
+                elif kind == "row-out":
+                    i = n + rng.randrange(0, 2)
+                elif kind == "col-out":
+                    i, j = n - 1, n          # refused by the bounds test (j >= size) before the triangularity test
+                elif kind == "neg-col":
+                    j = -1 - rng.randrange(0, 2)
+                es.append((i, j, rng.choice([0, 1, 5, 7])))
+            m = dc.ChunkedDistanceMatrix(n)
+            try:
+                for (i, j, v) in es:
+                    m.add_value(i, j, float(v))
+                out = show_cdm(m)
+            except Exception as e:  # noqa
+                out = "err:" + type(e).__name__
+            res.count("build.refused" if out.startswith("err") else "build.accepted")
+            tie.add("build %d %s" % (n, ";".join("%d,%d,%d" % e for e in es)), out, ("build", n, len(es)))
         # ---------- B3. the real CLI end to end -------------------------------------------
         rng = ctx.subrng("cli")
         for t in range(ctx.scale(25, 200, 80)):
@@ -574,6 +664,12 @@ def run(ctx, res):
             ne = case_cli(dc, case, res, tmp, tie)
             res.count("cli.arity%d" % case["arity"])
             res.count("cli.sigmoid_%s" % case["sigmoid"])
+            res.count("cli.dup_%s" % case["dup"])
+            res.count("cli.partially_observed" if case["partial"] else "cli.fully_observed")
+            if len(case["order"]) > case["n_chunks"]:
+                res.count("cli.repeated_chunk_files")
+                if case["dup"]:
+                    res.count("cli.repeated_chunk_files_with_zero_distances")
             if ne is not None and ne >= 2:
                 res.nontrivial.add(("cli", case["seed"]))
             if t == 0:
@@ -586,9 +682,24 @@ def run(ctx, res):
             L = rng.choice([1, 2, 3, 10, 50])
             a = nprng.normal(size=L) * rng.choice([0.1, 1, 10])
             b = nprng.normal(size=L) * rng.choice([0.1, 1, 10])
+            # structured pairs: predictions that agree on a prefix / in the first entry / everywhere but one entry / everywhere
+            shape = rng.choice(["random", "random", "last-differs", "first-equal", "one-differs", "equal", "integers"])
+            if shape == "last-differs":
+                b = a.copy(); b[-1] += rng.choice([0.25, -1.0, 3.0])
+            elif shape == "first-equal":
+                b[0] = a[0]
+            elif shape == "one-differs":
+                b = a.copy(); b[rng.randrange(L)] -= 0.5
+            elif shape == "equal":
+                b = a.copy()
+            elif shape == "integers":
+                a, b = np.round(a), np.round(b)
+            layout = rng.choice([None, None, "strided", "readonly"])
+            res.count("metric.shape.%s" % shape)
+            res.count("metric.layout.%s" % layout)
             for sig in (True, False):
                 res.evaluations += 1
-                case_metric({"kind": "metric", "a": a.tolist(), "b": b.tolist(), "sigmoid": sig}, res, tie if t < 200 else None)
+                case_metric({"kind": "metric", "a": a.tolist(), "b": b.tolist(), "sigmoid": sig, "layout": layout}, res, tie if t < 200 else None)
         res.count("metric.cases", nm * 2)
     finally:
         shutil.rmtree(tmp, ignore_errors=True)
